@@ -4,9 +4,9 @@ verus! {
 
 //@include units/common_xml.rs
 
-//@bytelits active=NameId::Active comment=NameId::Comment name=NameId::Name then=NameId::Then reject=NameId::Reject
+//@bytelits active=NameId::Active comment=NameId::Comment name=NameId::Name then=NameId::Then reject=NameId::Reject family=NameId::Family route-filter=NameId::RouteFilter
 
-pub enum NameId { Active, Comment, Name, Then, Reject, Other }
+pub enum NameId { Active, Comment, Name, Then, Reject, Family, RouteFilter, Other }
 #[verifier::opaque]
 pub open spec fn name_id(s: Seq<u8>) -> NameId {
     if s =~= seq![97u8, 99, 116, 105, 118, 101] { NameId::Active }                   // "active"
@@ -14,6 +14,8 @@ pub open spec fn name_id(s: Seq<u8>) -> NameId {
     else if s =~= seq![110u8, 97, 109, 101] { NameId::Name }                         // "name"
     else if s =~= seq![116u8, 104, 101, 110] { NameId::Then }                        // "then"
     else if s =~= seq![114u8, 101, 106, 101, 99, 116] { NameId::Reject }             // "reject"
+    else if s =~= seq![102u8, 97, 109, 105, 108, 121] { NameId::Family }             // "family"
+    else if s =~= seq![114u8, 111, 117, 116, 101, 45, 102, 105, 108, 116, 101, 114] { NameId::RouteFilter }   // "route-filter"
     else { NameId::Other }
 }
 
@@ -199,6 +201,59 @@ impl Maybe<Candidate> {
 //@end
 }
 } // mod fetch
+
+// ---------- the installed-policy side: <from> of a term (C01 'the agent reads back what it installed') ----------
+pub struct RouteFilter { pub address: CowStr, pub prefix_length_range: CowStr }
+impl RouteFilter {
+    // RouteFilter::borrowed_read_xml: ASSUMED to consume the <route-filter> subtree and to record one Data item
+    #[verifier::external_body]
+    pub fn borrowed_read_xml(reader: &mut NsReader, start: &BytesStart) -> (r: Result<RouteFilter, ReadError>)
+        ensures final(reader).remaining@.len() <= old(reader).remaining@.len(),
+                r is Ok ==> final(reader).log@ == old(reader).log@.push(Item::Data),
+                r is Err ==> is_prefix(old(reader).log@, final(reader).log@),
+    { unimplemented!() }
+}
+//@item file=junos-agent/src/policies/fetch.rs kind=struct name=TermFrom sub=/struct TermFrom<'i>=>pub struct TermFrom;family: Cow<'i, str>=>pub family: CowStr;route_filters: Vec<RouteFilter<'i>>=>pub route_filters: Vec<RouteFilter>/
+pub open spec fn is_rf_start(it: Item) -> bool {
+    it matches Item::Ev(ResolveResult::Bound(ns), Event::Start(tag)) && ns == XNM && name_id(tag.lname@) == NameId::RouteFilter
+}
+pub open spec fn count_data(s: Seq<Item>) -> nat decreases s.len() {
+    if s.len() == 0 { 0 } else { count_data(s.drop_last()) + (if s.last() is Data { 1nat } else { 0nat }) }
+}
+pub open spec fn count_rf(s: Seq<Item>) -> nat decreases s.len() {
+    if s.len() == 0 { 0 } else { count_rf(s.drop_last()) + (if is_rf_start(s.last()) { 1nat } else { 0nat }) }
+}
+pub broadcast proof fn lemma_count_data_push(s: Seq<Item>, it: Item)
+    ensures #[trigger] count_data(s.push(it)) == count_data(s) + (if it is Data { 1nat } else { 0nat }),
+{ assert(s.push(it).drop_last() =~= s); }
+pub broadcast proof fn lemma_count_rf_push(s: Seq<Item>, it: Item)
+    ensures #[trigger] count_rf(s.push(it)) == count_rf(s) + (if is_rf_start(it) { 1nat } else { 0nat }),
+{ assert(s.push(it).drop_last() =~= s); }
+
+pub mod installed {
+use super::*;
+broadcast use {xml_log_lemmas, lemma_count_data_push, lemma_count_rf_push};
+impl TermFrom {
+//@extract id=term_from_read_xml file=junos-agent/src/policies/fetch.rs impl=/BorrowedReadXml<'i> for TermFrom<'i>/ fn=borrowed_read_xml rules=R1,R2,R7,R8,R11,R15,R17,R19 constpats=XNM erase=NsReader,BytesStart,BytesEnd,RouteFilter,TermFrom
+//@sig pub fn borrowed_read_xml(reader: &mut NsReader, start: &BytesStart) -> (res: Result<Self, ReadError>)
+//@contract
+        // C01: what the agent reads back is what is installed - every <route-filter> of the term is parsed and kept, none is dropped
+        ensures res matches Ok(tf) ==> {
+            let seg = seg_of(old(reader).log@, final(reader).log@);
+            &&& is_prefix(old(reader).log@, final(reader).log@)
+            &&& tf.route_filters@.len() == count_rf(seg)                                       // OBL:C01.fetch.every_route_filter_is_kept
+            &&& count_data(seg) == count_rf(seg)
+        },
+//@loop 1
+            invariant
+                is_prefix(old(reader).log@, reader.log@),
+                reader.remaining@.len() <= old(reader).remaining@.len(),
+                route_filters@.len() == count_rf(seg_of(old(reader).log@, reader.log@)),       // OBL:C01.fetch.route_filters_count
+                count_data(seg_of(old(reader).log@, reader.log@)) == count_rf(seg_of(old(reader).log@, reader.log@)),
+            decreases reader.remaining@.len(),                                                 // OBL:C14.term_from.terminates
+//@end
+}
+} // mod installed
 
 } // verus!
 fn main() {}
